@@ -60,6 +60,15 @@ CHECKS['C04'] = dict(
     note='trusted: TLC, Valence.tla; the rule tables themselves are exported from the working tree (their data is pinned by the core model only on B C N O F / lowest valence of Si P S halogens)',
     technique='TLA+ valence model (literal core + interpreter of the exported rule tables) evaluated by TLC over an exhaustive environment grid',
     design='5/C04')
+CHECKS['C12'] = dict(
+    text='Complete sign tables of the three sign-translation functions (every neighbour order of every marked centre incl. implicit / explicit '
+         'hydrogen; every admissible substituent pair and argument orientation of double bonds, cumulenes and allenes) are recorded and TLC '
+         'checks the permutation algebra (same sign iff even permutation / iff both or neither end exchanged); RDKit reads the original text '
+         'and chython\'s rewriting and must see one molecule (inside the symmetry domain TLC evaluates); all 2^k label combinations of '
+         'asymmetric molecules get distinct strings; labels survive exactly on certainly stereogenic centres.',
+    note='trusted: TLC, Stereo.tla / Sym.tla; RDKit only as second reader-writer; the meaning of @/@@ and / \\ against the language definition is C03/C02',
+    technique='TLC evaluation of permutation-parity specifications over exhaustive recorded sign tables; toolkit cross-reading',
+    design='5/C12')
 PENDING = {}
 
 
